@@ -135,18 +135,25 @@ def run(chk, orch):
                     rep[(k, repr_, comp)] = (spec, o, cell)
         # ---------------- P: partitions
         part = {}
-        npart = 3 if quick else 8
+        npart = 4 if quick else 8
         for k in range(npart):
             spec = workload.random_spec(chk.rng)
             spec["n_exp"] = 1
             spec["groups"] = 0
+            # read-through reads join the read islands of neighbouring genes: how the chromosome is cut into regions then
+            # depends on which file contributes which read
+            spec["bridge"] = 3
+            spec["long_locus"] = 1 if k % 2 == 0 else spec.get("long_locus", 0)
             opts = {"data_type": chk.rng.choice(["nanopore", "pacbio_ccs"]), "annotated": True}
             hs = 0 if quick else chk.rng.choice([0, 1, 2, 3])
             split = ["random", "chunks", "tiny"][k % 3]
             for nb in (1, 2, 3, 4):
-                s2 = dict(spec, n_bams=nb, bam_split=split)
+                # files of one experiment may list the reference sequences in different orders (nb == 3 and, seeded, others)
+                s2 = dict(spec, n_bams=nb, bam_split=split, sq_order=1 if nb in (2, 3) else 0)
                 cell = common.random_cell(chk.rng) if nb > 1 else dict(common.GOLDEN_CELL)
                 cell["hashseed"] = hs
+                if nb == 3:
+                    cell["high_memory"] = False      # the streaming merger is used for the region re-fetch in this mode only
                 o = dict(opts, bam_order=chk.rng.randrange(5) if nb > 1 else None)
                 orch.submit(cell["hashseed"], "scenarios:pipeline", common.job_args(s2, o, cell), tag=("p", k, nb))
                 part[(k, nb)] = (s2, o, cell)
